@@ -210,7 +210,8 @@ LRDereg ==     \* after a raising poll function: the failed futures deregister o
   /\ LET left == SelectSeq(descs, LAMBDA x : \E i \in DOMAIN snap : snap[i] = x /\ fst[x] = "done")
      IN IF left = <<>>
           THEN /\ pc' = [pc EXCEPT ![LOOP] = "l_wait"] /\ UNCHANGED descs
-          ELSE /\ descs' = SelectSeq(descs, LAMBDA x : x # left[1]) /\ UNCHANGED pc
+          ELSE /\ descs' = SelectSeq(descs, LAMBDA x : x # left[1])
+               /\ pc' = [pc EXCEPT ![LOOP] = IF Len(left) = 1 THEN "l_wait" ELSE "l_rdereg"]
   /\ actor' = LOOP /\ NoEmit
   /\ UNCHANGED <<cfg, lock, gate, evt, woken, fst, stage, calls, snap, pos, seen, wdl, edl, now>>
 
